@@ -68,6 +68,18 @@ def gen_events(tier, rnd):
             A, H = Angle(al, 'deg'), Angle(h, 'deg')
             add('WormGear', _o(lambda: WormGear('w', 2, J, H, A)), starts=2, helix=rstr(H.to('rad').value), alpha=rstr(A.to('rad').value))
             add('WormWheel', _o(lambda: WormWheel('w', 30, J, H, A)), teeth=30, helix=rstr(H.to('rad').value), alpha=rstr(A.to('rad').value))
+    # the same limits with the helix angle given in every other angle unit (the limit is tabulated in degrees)
+    import math as _m
+    for al, lim in limits.items():
+        for h in (lim - 2, lim - 0.01, lim + 0.01, lim + 3, 0.4):
+            for unit, val in (('rad', _m.radians(h)), ('rot', h / 360), ('arcmin', h * 60), ('arcsec', h * 3600)):
+                A, H = Angle(al, 'deg'), Angle(val, unit)
+                add('WormGear', _o(lambda: WormGear('w', 2, J, H, A)), starts=2, helix=rstr(H.to('rad').value), alpha=rstr(A.to('rad').value))
+                add('WormWheel', _o(lambda: WormWheel('w', 30, J, H, A)), teeth=30, helix=rstr(H.to('rad').value), alpha=rstr(A.to('rad').value))
+    for h in (45.0, 89.9, 90.1, 135.0):
+        for unit, val in (('rad', _m.radians(h)), ('rot', h / 360), ('arcmin', h * 60), ('arcsec', h * 3600)):
+            a = Angle(val, unit)
+            add('HelicalGear', _o(lambda: HelicalGear('g', 20, J, a)), teeth=20, E=N, helix=rstr(a.to('rad').value))
     for starts in (-1, 0, 1, 4):
         A, H = Angle(20, 'deg'), Angle(10, 'deg')
         add('WormGear', _o(lambda: WormGear('w', starts, J, H, A)), starts=starts, helix=rstr(H.to('rad').value), alpha=rstr(A.to('rad').value))
